@@ -769,7 +769,7 @@ def expr_str(f, i, depth=0):
                 x = f.nodes.get(i)
                 while x is not None and x["k"] == "cast":
                     x = f.nodes.get(x["a"][0])
-                return x is not None and x["k"] in ("int", "chr", "str", "null", "bool", "flt")
+                return x is not None and (x["k"] in ("int", "chr", "str", "null", "bool", "flt") or (x["k"] == "ref" and x.get("d") == "ec"))
             if lit(a[0]) and not lit(a[1]):
                 flip = {"==": "==", "!=": "!=", "<": ">", ">": "<", "<=": ">=", ">=": "<="}
                 a = [a[1], a[0]]
